@@ -31,7 +31,7 @@ LADDERS_AV = [[2], [2, 1, 0], [2, 0]]
 
 
 def n_cases(tier):
-    return 40 if tier == 'quick' else 3000
+    return 72 if tier == 'quick' else 3000
 
 
 def gen(seed, idx):
@@ -47,13 +47,17 @@ def gen(seed, idx):
     return case, rng
 
 
-def execute(case, wd, tag, threads, sched, overrides=None, alarm_plan=None, count_attempts=False):
+LINE_CAP = {'quick': 20_000_000, 'thorough': 80_000_000}
+
+
+def execute(case, wd, tag, threads, sched, overrides=None, alarm_plan=None, count_attempts=False,
+            line_cap=None):
     ref, files, out = cvcase.materialise(case, cvcase.reference_layout(case), wd, tag)
     cfg = dict(case['config'], threads=threads)
     if overrides:
         cfg.update(overrides)
     return cvrun.run_callvariant(ref, files, out, cfg, sched, alarm_plan=alarm_plan,
-                                 count_attempts=count_attempts)
+                                 count_attempts=count_attempts, line_cap=line_cap)
 
 
 def plan_alarms(rng, measure, ladder_len):
@@ -82,9 +86,11 @@ def plan_alarms(rng, measure, ladder_len):
     return plan
 
 
-def judge(case, wd, threads, sched, plan, lazy_box):
-    """Returns (violations [(clause, sig, detail)], info)."""
-    m = execute(case, wd, 'm', 1, {'salt': sched.get('salt', 0)}, count_attempts=True)
+def judge(case, wd, threads, sched, plan, lazy_box, m=None):
+    """Returns (violations [(clause, sig, detail)], info).  ``m`` = traced fault-free execution (measured
+    here when not supplied, i.e. on replay)."""
+    if m is None:
+        m = execute(case, wd, 'm', 1, {'salt': sched.get('salt', 0)}, count_attempts=True)
     if not m.ok:
         return None, {'invalid': m.exc}
     t = execute(case, wd, 't', threads, sched, alarm_plan=plan)
@@ -161,8 +167,15 @@ def run_case(seed, task, tier):
     sched = {'pool_seed': rng.getrandbits(32), 'salt': rng.choice([0, rng.getrandbits(30) | 1])}
     n_plans = 3 if tier == 'quick' else 5
     with cvcase.Scratch('c02_') as wd:
-        m = execute(case, wd, 'm', 1, {'salt': sched['salt']}, count_attempts=True)
+        m = execute(case, wd, 'm', 1, {'salt': sched['salt']}, count_attempts=True,
+                    line_cap=LINE_CAP[tier])
         out['executions'] += 1
+        if m.step_capped:
+            # an attempt longer than the tier's step cap: bounded runs only (DESIGN 3.1); counted, not judged
+            out['invalid'] = True
+            out['invalid_reason'] = 'step cap'
+            probes['step_cap_discarded'] = 1
+            return out
         if not m.ok or not m.attempt_lines:
             out['invalid'] = True
             out['invalid_reason'] = m.exc or 'no attempts'
@@ -176,8 +189,8 @@ def run_case(seed, task, tier):
             plan = plan_alarms(prng, m, ladder)
             last_plan = plan
             lazy = [0]
-            res, info = judge(case, wd, threads, sched, plan, lazy)
-            out['executions'] += 2 + lazy[0]
+            res, info = judge(case, wd, threads, sched, plan, lazy, m)
+            out['executions'] += 1 + lazy[0]
             probes['lazy_oracle_runs'] = probes.get('lazy_oracle_runs', 0) + lazy[0]
             if res is None:
                 continue
